@@ -282,16 +282,30 @@ class C12(runner.Check):
 					["zero", "nan", "huge"])}})
 			case["plans"] = plans
 			case["dim1"] = r.chance(0.5)
+			case["xkind"] = r.wchoice(["float32", "int8", "float64", "numpy", "strided"],
+				[4, 2, 1, 1, 1])
 		else:
 			case["n_jobs"] = [1] + s.sample([2, 3, 5, 8, 16], 2)
 			case["chunks"] = [0, s.choice([1, 2])]
 			case["fasta"] = {"width": r.choice([7, 60, 1000]), "lower": r.chance(0.4)}
+			case["xkind"] = r.wchoice(["float32", "int8", "float64", "numpy", "strided"],
+				[4, 2, 1, 1, 1])
 		return case
 
 	# -- helpers ---------------------------------------------------------------
-	def _tensor(self, seqs):
-		return torch.from_numpy(numpy.stack([genome.onehot_np(s, dtype="float32")
-			for s in seqs]))
+	def _tensor(self, seqs, kind="float32"):
+		X = numpy.stack([genome.onehot_np(s, dtype="float32") for s in seqs])
+		if kind == "int8":
+			return torch.from_numpy(X.astype("int8"))
+		if kind == "float64":
+			return torch.from_numpy(X.astype("float64"))
+		if kind == "numpy":
+			return X
+		if kind == "strided":
+			big = torch.zeros(X.shape[0], 4, X.shape[2] * 2)
+			big[:, :, ::2] = torch.from_numpy(X)
+			return big[:, :, ::2]
+		return torch.from_numpy(X)
 
 	def _motif_dict(self, world):
 		return {m["name"]: torch.tensor(m["pwm"], dtype=torch.float64)
@@ -385,7 +399,7 @@ class C12(runner.Check):
 			out.digest = log.digest()
 			return out
 		oracle = Oracle(self.fm, world)
-		X = self._tensor(world["seqs"])
+		X = self._tensor(world["seqs"], case.get("xkind", "float32"))
 		md = self._motif_dict(world)
 		cfg = world["cfg"]
 		seq_lens = [len(s) for s in world["seqs"]]
@@ -615,7 +629,7 @@ class C12(runner.Check):
 			return
 		# tensor + dict backend (only when all sequences have the same length)
 		if world["equal_length"] and len(set(seq_lens)) == 1:
-			X = self._tensor(world["seqs"])
+			X = self._tensor(world["seqs"], case.get("xkind", "float32"))
 			try:
 				res = fm.fimo(md, X, **cfg)
 			except Exception as e:
@@ -635,7 +649,7 @@ class C12(runner.Check):
 				return
 			# reverse-complement metamorphic relation
 			if cfg["reverse_complement"]:
-				Xrc = torch.flip(X, dims=(1, 2))
+				Xrc = torch.flip(torch.as_tensor(X), dims=(1, 2))
 				res = fm.fimo(md, Xrc, **cfg)
 				grc, _ = hits_to_set(res)
 				L = seq_lens[0]
